@@ -1369,6 +1369,27 @@ func familyLimits(r *common.Rand) {
 		}
 		multisigCase(r, fmt.Sprintf("limit/opcount-%d", nops+1+20), fk, 20, one(20, 19), msOpts{pre: pre, expect: exp})
 	}
+	// P2SH-wrapped OP_CHECKSIG(VERIFY): the script code is the REDEEM script (the script being run), not the
+	// HASH160 <h> EQUAL of the spent output; FORKID and original digests, with and without a separator in the redeem script
+	for fi, f := range []uint32{sp.FBip16 | fk, sp.FBip16, sp.FBip16 | sp.FForkID, sp.FBip16 | sp.FDERSig | sp.FNullFail} {
+		for hi := 0; hi < 3; hi++ {
+			for sep := 0; sep < 2; sep++ {
+				b := newBuild(r, "p2sh/checksig"+[]string{"", "-after-separator"}[sep], f, 1)
+				slot := b.addSig(sigReq{Signer: 0, HT: matchingType(f, fi+hi)})
+				pk := b.keys[0].Enc((fi + hi) % 2)
+				b.p2sh = true
+				b.scripts[0] = []sp.Op{sp.SigSlot(slot, nil, nil, 0)}
+				if sep == 0 {
+					b.scripts[2] = []sp.Op{sp.P(pk), sp.O(0xac)}
+					b.ops = []sigOp{{script: 2, at: 1, slots: []int{slot}, keys: [][]byte{pk}}}
+				} else {
+					b.scripts[2] = []sp.Op{sp.O(0x61), sp.Sep(true), sp.P(pk), sp.O(0xac)}
+					b.ops = []sigOp{{script: 2, at: 3, slots: []int{slot}, keys: [][]byte{pk}}}
+				}
+				b.run()
+			}
+		}
+	}
 	// P2SH-wrapped multisig
 	for _, f := range []uint32{sp.FBip16 | fk, sp.FBip16, sp.FBip16 | sp.FDERSig} {
 		multisigCase(r, "p2sh/2-of-3", f, 3, []int{0, 2}, msOpts{p2sh: true})
